@@ -161,6 +161,9 @@ def run(ctx):
                     fn=e, site=(hit[1] if hit else fx.fn(e)["loc"]), detail=hit)
     for e in STOP_ENTRIES:
         check_submit_on_ok(ctx, fx, "R04.1", e, set(STOP_ENTRIES))
+    # R04.6 messages accepted before the stop are still handled: queued payloads run their handler unconditionally (shared with C01)
+    from props.c01 import check_payloads
+    check_payloads(ctx, fx, "tokio", "R04.6")
     # R04.5 the ordering argument: Stop travels in the actor's single FIFO queue, behind everything submitted before
     from props.c01 import check_single_queue
     check_single_queue(ctx, fx, "tokio", "R04.5", "R04.5")
